@@ -331,6 +331,21 @@ def run(ctx, prog):
         ctx.inst('C02.R5', ct.short, 'rebuilt metadata index installed', bool(mi), 'metadata_index.write() sites: %d' % len(mi))
     else:
         ctx.missing('C02.R5', 'compact_tombstones: MetadataInvertedIndex::rebuild_from')
+    # completeness of the compaction rebuild: every live slot is copied — the only must-pass guards of the pushes into the rebuilt store are "there are
+    # tombstones", the zip iteration and "this slot has an external id"; a further skip condition silently drops live documents at the next compaction
+    ctb = ctx.body('C02.R5', 'HnswBackend::compact_tombstones')
+    if ctb is not None:
+        cv = flow.Origin(ctb, stop_at_vars=True)
+        cpush = [c for c in ctb.calls if c.callee and c.callee.endswith('Vec::push') and not c.exp and re.search(r'DocumentStore\.(embeddings|metadata|versions|digests|internal_to_external)$', flow.render(cv.of_operand(c.args[0], 0, frozenset({-1}))))]
+        allowed = [r'^!cmp\[\+ var:tombstones == 0\]$', r'^variant\(<zip::Zip<A, B> as iterator::Iterator>::next\(var:iter\)\) = Some$', r'^variant\(var:ext\) = Some$', r'^variant\(var:\w+\) = Some$']
+        cpreds = [(i_, tg, p) for i_, blk in enumerate(ctb.blocks) if blk['t']['k'] == 'switch' and i_ in ctb.live_blocks() for tg, p in flow.switch_edge_predicates(ctb, i_, cv)]
+        extra_all = set()
+        for c in cpush:
+            must = [p for i_, tg, p in cpreds if c.bb not in ctb.reach([0], avoid_edges=[(i_, tg)])]
+            extra_all |= set(p for p in must if not any(re.match(a, p) for a in allowed))
+        ctx.inst('C02.R5', ctb.short, 'every live slot is copied: the pushes into the rebuilt store have no skip condition besides the tombstone test', len(cpush) >= 5 and not extra_all,
+                 ('additional skip condition(s): %s' % sorted(x[:90] for x in extra_all)) if extra_all else '%d pushes guarded only by tombstones ≠ 0, the iteration and Some(external id)' % len(cpush))
+
     # ------------------------------------------------------------------ R6 the log carries the post-image
     ctx.rule('C02.R6', 'post-image agreement: what a mutator writes into the log entry is what it installs in memory, because replay installs the logged value '
                        'as is — update_metadata logs the map it assigns to store.metadata[id] (the merged map, not the caller\'s delta; replay does a full '
